@@ -361,13 +361,7 @@ pub fn eval_c03(st: &State) -> Eval {
         }
     }
     // (b) compact tessellation, all masks: stored once / listed by both / reciprocal periodic pairs
-    let masks: Vec<Option<Vec<bool>>> = if n <= 4 {
-        let mut m: Vec<Option<Vec<bool>>> = vec![None];
-        m.extend(all_masks(n).into_iter().map(Some));
-        m
-    } else {
-        vec![None]
-    };
+    let masks: Vec<Option<Vec<bool>>> = masks_menu(n, 4);
     let mut prev_owner: BTreeMap<String, BTreeMap<(usize, usize), usize>> = BTreeMap::new();
     for mask in &masks {
         let ms = mask.as_ref().map(|m| mask_str(m)).unwrap_or_else(|| "none".to_string());
@@ -520,13 +514,7 @@ pub fn eval_c04(st: &State) -> Eval {
         Ok(i) => pos_for(&t, sigma_all(&sigmas(&i, n))),
         Err(_) => t.pos,
     };
-    let masks: Vec<Option<Vec<bool>>> = if n <= 3 {
-        let mut m: Vec<Option<Vec<bool>>> = vec![None];
-        m.extend(all_masks(n).into_iter().map(Some));
-        m
-    } else {
-        vec![None]
-    };
+    let masks: Vec<Option<Vec<bool>>> = masks_menu(n, 3);
     let w = st.norm_width();
     for mask in &masks {
         let ms = mask.as_ref().map(|m| mask_str(m)).unwrap_or_else(|| "none".to_string());
